@@ -1,11 +1,12 @@
-import SigModel.Driver.Loop
+import SigModel.Driver.HubCommon
 
-/-! Driver for C05 — stub (no model yet). -/
+/-! Driver for C05: the shared hub model (`Model/Hub.lean`) with this property's judge. -/
 namespace SigModel.Driver.C05
+open SigModel.Proto SigModel.Hub SigModel.Driver.HubCommon
 
-structure St where
-  dummy : Unit := ()
+abbrev St := HubCommon.St
 
-def step (st : St) (_op _impl : List String) : St × String × String := (st, "bad-op", "na")
+def step (st : St) (op impl : List String) : St × String × String :=
+  stepWith (fun _ pre op impl => judgeC05 pre op impl) st op impl
 
 end SigModel.Driver.C05
